@@ -103,6 +103,9 @@ func TestC14(t *testing.T) {
 			ctx3 := []string{
 				P + " [t1(), t2(), t3()];\n",
 				P + " {a: t1(), b: t2(), c: t3()};\n",
+				"x = {a: t1(), b: t2(), a: t3()};\n" + P + " x.b;\n",
+				"x = {a: t1(), a: t2(), a: t3()};\n" + P + " \"built\";\n",
+				P + " [{k: t1()}, [t2()], {k: [t3()]}];\n",
 				"x = {p: t1(), q: t2(), r: t3()};\n" + P + " x.p;\n" + P + " x.r;\n",
 				P + " id3(t1(), t2(), t3());\n",
 				bn.KwVar + " va = t1(), vb = t2(), vc = t3();\n" + P + " vc;\n",
